@@ -210,6 +210,23 @@ def check_polyline(ctx: Ctx, inst: dict, rng: random.Random) -> None:
                     sa, sb = arclen_on_polyline(pa[0], pts), arclen_on_polyline(pa[-1], pts)
                     if (sa < sb) != (a["s"] < b["s"]):
                         bad(f"oncurve:direction:{order}", "edge points run from the second vertex to the first")
+            # the same edge after its vertices were slid along the curve (optimizer, move_vertex): it is the part of the curve
+            # between where the vertices are NOW
+            c, d = rng.sample(samples[1:-1], 2)
+            if abs(c["s"] - d["s"]) >= 0.05 * L:
+                def moved():
+                    edge.vertex_1.move_to(np.array(c["p"]))
+                    edge.vertex_2.move_to(np.array(d["p"]))
+                    return float(edge.length), [list(p) for p in edge.point_array]
+                out = guarded("OnCurveEdge.after-move", moved)
+                ctx.evaluated()
+                if out is not None:
+                    length2, pa2 = out
+                    if abs(length2 - abs(c["s"] - d["s"])) > 1e-5 * L:
+                        bad("oncurve:length:after-move", f"edge length {length2} after its vertices moved, curve length between them {abs(c['s'] - d['s'])}")
+                    lo, hi = sorted((c["s"], d["s"]))
+                    if any(dist_to_polyline(p, pts) > 1e-6 * L or not (lo - 1e-5 * L <= arclen_on_polyline(p, pts) <= hi + 1e-5 * L) for p in pa2):
+                        bad("oncurve:points:after-move", "after its vertices moved the edge points do not lie between the two vertices")
 
 
 def check_circle(ctx: Ctx, inst: dict, rng: random.Random) -> None:
